@@ -9,7 +9,7 @@
     [disable]) on a manager whose first configuration is [cfg] ([new], [Default], a [Host]'s field).
     [accept_loop checked sc t0 evs]: the accept loop of src/lib.rs with every counter and exit
     path it has, over the pre-host limiter / host limiter pair described by [sc]. *)
-From KV Require Import Bytes RustInt Limiter LimiterProofs LimiterConc LimiterConcProofs.
+From KV Require Import Bytes RustInt Limiter LimiterProofs LimiterConc LimiterConcProofs LimiterHosts LimiterHostsProofs.
 Open Scope N_scope.
 
 (** For every sequential history and every configuration (max_requests, check_every,
@@ -478,3 +478,47 @@ Example ex_sampling_race :
   = [Ok Drop; Ok Drop; Ok Passed] /\
   reference cfg 0 [(1, 0); (1, 0); (1, 0)] = [Passed; Drop; Passed].
 Proof. vm_compute. split; reflexivity. Qed.
+
+(** ---- several hosts, unknown hosts ---------------------------------------------------------- *)
+(** [maccept_loop checked mc t0 evs]: the accept loop and [handle_connection] over a collection of
+    hosts — every [Host] has its own manager (own counters), the pre-host limiter shares those of
+    the first host (or not: [m_base]) — for connections whose requests name a host each
+    ([THost i]) or a host that does not exist ([TUnknown]: 409, the connection is closed, no
+    host limiter is asked), accept errors and shutdown requests. *)
+Theorem hosts_server_refines_reference : forall (checked : bool) (mc : mconfig) (t0 : N) (evs : list mevent),
+  fits (mcalls_bound evs) -> maccept_loop checked mc t0 evs = spec_mserver mc t0 evs.
+Proof. exact hosts_server_model. Qed.
+
+(** A request for an unknown host asks no limiter; a request to one host leaves the counters of every
+    other host (and, for a further host, those of the pre-host limiter) as they are. *)
+Theorem hosts_have_their_own_counters :
+  forall (checked : bool) (mc : mconfig) (p : mlims) (a t : N),
+  ask checked mc p a t TUnknown = None /\
+  (forall k, (length (m_extra mc) <= k)%nat -> ask checked mc p a t (THost (S k)) = None) /\
+  (forall k p1 d, ask checked mc p a t (THost (S k)) = Some (p1, d) ->
+     fst p1 = fst p /\ (forall j, j <> k -> nth_error (snd p1) j = nth_error (snd p) j)) /\
+  (forall p1 d, ask checked mc p a t (THost O) = Some (p1, d) -> snd p1 = snd p).
+Proof.
+  intros. destruct (unknown_host_not_counted checked mc p a t) as [H1 H2].
+  refine (conj H1 (conj H2 (conj _ _))).
+  - intros k p1 d. apply hosts_have_own_counters.
+  - intros p1 d. apply first_host_leaves_others.
+Qed.
+
+(** The one-host server of the theorems above is the special case: no further host, every request for the first. *)
+Theorem hosts_embedding : forall (checked : bool) (sc : sconfig) (t0 : N) (cs : list connection),
+  maccept_loop checked {| m_base := sc; m_extra := [] |} t0 (map m_of cs)
+  = (map up (fst (accept_loop checked sc t0 (map conn_of cs))), snd (accept_loop checked sc t0 (map conn_of cs))).
+Proof. exact hosts_embedding_model. Qed.
+
+(** two hosts (max 1, counters shared with the pre-host limiter; max 2, own counters): address 1 is counted once
+    at accept by host 0's counters, passes twice at host 1 and gets 429 there the third time, 429 at host 0 (its
+    second counted call there), 409 for a name nobody has — and that closes the connection; address 2 likewise
+    has one call left at host 0, which the accept uses. *)
+Example ex_hosts :
+  let mc := {| m_base := same_limiter {| max_requests := 1; check_every := 1; reset_after := None |};
+               m_extra := [{| max_requests := 2; check_every := 1; reset_after := None |}] |} in
+  fits (mcalls_bound [MConn 1 0 [(0, THost 1); (0, THost 1); (0, THost 1); (0, THost 0); (0, TUnknown); (0, THost 0)]; MConn 2 0 [(0, THost 0)]]) /\
+  spec_mserver mc 0 [MConn 1 0 [(0, THost 1); (0, THost 1); (0, THost 1); (0, THost 0); (0, TUnknown); (0, THost 0)]; MConn 2 0 [(0, THost 0)]]
+  = ([MServed [MNormal; MNormal; MTooMany; MTooMany; MConflict] true; MServed [MTooMany] false], Running).
+Proof. vm_compute. split; [discriminate|reflexivity]. Qed.
